@@ -352,11 +352,25 @@ pub fn tlv_structured_universe(thorough: bool) -> ListUniverse {
         two.extend_from_slice(&[4, 0, 1, 7]);
         cases.push(two);
     }
+    // every type byte with small value lengths: whole, cut by one byte, and followed by an empty item of the same type
+    for k in 0..=255u8 {
+        for l in 0..4usize {
+            let mut sec = vec![k, 0, l as u8];
+            sec.extend((0..l).map(|i| k.wrapping_add(i as u8 + 1)));
+            cases.push(sec.clone());
+            cases.push(sec[..sec.len() - 1].to_vec());
+            let mut two = sec.clone();
+            two.extend_from_slice(&[k, 0, 0]);
+            cases.push(two.clone());
+            two.extend_from_slice(&[k ^ 0xff, 0, 1, 9]);
+            cases.push(two);
+        }
+    }
     cases.sort();
     cases.dedup();
     ListUniverse {
         name: "UT-structured".into(),
-        what: "well-formed sequences of 1-3 items (value lengths 0,1,2,255,256,257[,3,1000]) cut at every truncation point; single items of 65534 / 65535 bytes".into(),
+        what: "well-formed sequences of 1-3 items (value lengths 0,1,2,255,256,257[,3,1000]) cut at every truncation point; single items of 65534 / 65535 bytes; every type byte 0..=255 x value lengths 0..=3 (whole, cut by one, followed by further items)".into(),
         cases,
     }
 }
